@@ -13,4 +13,6 @@ def run(ctx, L, tier):
     G.f4_tables(ctx, L)
     M.dynamic_predicates(ctx, L)
     M.size_formulas(ctx, L)
+    from . import c20
+    c20.shared_state(ctx, L)        # no state that survives from one compiled file / call to the next (module, class, closure, default argument)
     return sorted(set(o.rule for o in L.obligations))
